@@ -765,6 +765,35 @@ func c04HandlerArgs(c *Ctx, k *core) {
 		if g == f {
 			continue
 		}
+		if h := k.isCbHelper(g); h != nil {
+			// a synchronous helper of the loop: its handler arguments are fields of a parameter that stands for the processed event
+			for _, i := range allInstrs(g) {
+				ci, ok := i.(ssa.CallInstruction)
+				if !ok || !isHandlerCall(ci) {
+					continue
+				}
+				n++
+				bad := ""
+				for ai, a := range ci.Common().Args {
+					if ai == 0 {
+						continue
+					}
+					okA := false
+					if ld, isLd := a.(*ssa.UnOp); isLd && ld.Op == token.MUL {
+						if fa, isFA := ld.X.(*ssa.FieldAddr); isFA {
+							if p, isP := fa.X.(*ssa.Parameter); isP && c04FromEvent(k.cbUp(p)) {
+								okA = true
+							}
+						}
+					}
+					if !okA {
+						bad = canon(a)
+					}
+				}
+				c.check(bad == "", "callbacks-see-published", relName(g)+"#handler-call", ci.Pos(), "all config/error arguments are fields of the event the loop handed to this helper", "handler argument "+bad+" is not a field of the processed event")
+			}
+			continue
+		}
 		for _, i := range allInstrs(g) {
 			if ci, ok := i.(ssa.CallInstruction); ok && isHandlerCall(ci) {
 				c.bad("callbacks-see-published", relName(g)+"#handler-call", ci.Pos(), "handler invoked outside the callback loop")
